@@ -46,6 +46,7 @@ def setup(ctx):
     ctx.require("monitor", "refusals_60_61", 300)
     ctx.require("monitor", "client_certs_presented", 300)
     ctx.require("monitor", "live_requests", 10)
+    ctx.require("monitor", "requests_on_a_busy_server", 400)
     ctx.require("monitor", "wired_through_serve_command", 3)
     ctx.require("monitor", "live_requests_on_resumed_sessions", 16)
 
@@ -369,6 +370,41 @@ def run(ctx):
                                 judge(ctx, meta, rules, rname, via, path, cls, target, cname, ident.fingerprint if ident else None, bytes(bench.client_plain))
                             finally:
                                 close_loop(loop)
+        # ---- a busy server: one wiring serves a long run of ordinary requests that all fall under ONE of its rules,
+        # then every client asks for every protected file.  Which rule applies to a path is decided by the order
+        # written in the configuration, not by which rule has been busiest.
+        canon = [s2 for s2 in sp if s2[1] == "canonical" and s2[2] and s2[2] in meta["files"]]
+        for rname, rules in rs.items():
+            if len(rules) < 2:
+                continue
+            k += 1
+            if not ctx.mine(k):
+                continue
+            cap, sc, cac = capture(ctx, meta, rules, "object", base, True)
+            for j, rule in reversed(list(enumerate(rules))):
+                # (later rules first: their run happens while the earlier rules have seen next to nothing)
+                # a file whose FIRST matching rule is rule j, and a client that rule admits
+                mine_ = [s2 for s2 in canon if next((i for i, r in enumerate(rules) if s2[2].startswith(r["prefix"])), None) == j]
+                if not mine_:
+                    continue
+                path, cls, target = mine_[0]
+                who = next(((cn, idt) for cn, idt in clients if policy(rules, target, idt.fingerprint if idt else None)[0] == "admit"), clients[1])
+                todo = [(path, cls, target, who[0], who[1], False)] * ctx.pick(150, 600)
+                todo += [(p2, c2, t2, cn, idt, True) for p2, c2, t2 in canon if any(t2.startswith(r["prefix"]) for r in rules) for cn, idt in (clients if not ctx.quick() else clients[:4])]
+                for p2, c2, t2, cn, idt, judged in todo:
+                    loop = new_loop()
+                    try:
+                        bench = tlsbench.Sandwich(loop, None, captured=cap, client_identity=idt)
+                        if not bench.handshake():
+                            ctx.inconclusive_because(f"handshake failed: {bench.error}")
+                            continue
+                        bench.client_send(f"gemini://localhost{p2}\r\n".encode())
+                        bench.finish()
+                        if judged:
+                            ctx.count("monitor", "requests_on_a_busy_server")
+                            judge(ctx, meta, rules, rname, "object:after-a-run-on-one-rule", p2, c2, t2, cn, idt.fingerprint if idt else None, bytes(bench.client_plain))
+                    finally:
+                        close_loop(loop)
         # ---- L3 live sample (TOML path, real sockets)
         if ctx.shard == 0:
             rules = rs["public-inside-protected"]
